@@ -156,6 +156,9 @@ func (m *Machine) RunPath(item WorkItem, entry *ssa.Function, args []value, emit
 	m.ndLog = nil
 	m.obsLog = nil
 	m.preempts = 0
+	m.mapOrderOn = m.opts.MapOrder
+	m.mapBudget = -1
+	m.schedFixed = false
 	m.res = &PathResult{Status: "ok", Covers: map[string]int{}}
 	m.emit = emit
 	m.gs = nil
